@@ -143,7 +143,7 @@ def run(ctx):
         for e in ev:
             seen.add((e["k"], (e.get("res") or "")[:6], e.get("what", "")))
     need = {("pmm", "ok", ""), ("pmm", "oom", ""), ("vmm", "ok", ""), ("vmm", "oom", ""), ("alloc", "ok", ""), ("alloc", "oom", ""),
-            ("free", "ok", ""), ("free", "frame ", ""), ("drain", "oom", ""), ("freeall", "ok", ""), ("map", "ok", "lazy"),
+            ("free", "ok", ""), ("free", "double", ""), ("drain", "oom", ""), ("freeall", "ok", ""), ("map", "ok", "lazy"),
             ("map", "ok", "own"), ("map", "oom", "lazy"), ("fault", "resume", ""), ("fault", "panic", ""), ("unmap", "ok", ""), ("snap", "", "")}
     ctx.cov["legs"]["event-kinds"] = {"seen": len(seen), "missing": sorted(need - seen)}
     if not q and not ctx.violations and need - seen:
